@@ -61,6 +61,28 @@ def build_filters(ctx, features_drop=()):
                             ast.Compare(ast.In(), I("i2"), ast.List([ast.Integer("0"), ast.Integer("7")]))):
                 filters.append(ast.Compare(cmpop(), operand, ast.Boolean(sp)))
                 filters.append(ast.Compare(cmpop(), ast.Boolean(sp), operand))
+    # integer division / remainder of a column by a literal, against every small quotient (the integer-ness of the literal decides the SQL operator's meaning)
+    if "div" not in features_drop:
+        for col in ("i1", "i2"):
+            for d in ("2", "3", "-2", "7"):
+                for q in ("-4", "-3", "-1", "0", "1", "2", "3"):
+                    filters.append(ast.Compare(ast.Eq(), ast.BinOp(ast.Div(), I(col), ast.Integer(d)), ast.Integer(q)))
+                filters.append(ast.Compare(ast.Eq(), ast.BinOp(ast.Mod(), I(col), ast.Integer(d)), ast.Integer("1")))
+                filters.append(ast.Compare(ast.Eq(), ast.BinOp(ast.Div(), ast.Integer("7"), ast.Integer(d)), I(col)))
+    # chains of three and four `eq` terms on ONE field joined by `or`, with a null test at every position (a rewrite into IN (...) loses the null test)
+    def orchain(terms):
+        e = terms[0]
+        for t in terms[1:]:
+            e = ast.BoolOp(ast.Or(), e, t)
+        return e
+    for col, lits in (("i1", [ast.Integer("7"), ast.Integer("-1"), ast.Integer("2")]), ("s1", [S("ab"), S(""), S("A%")])):
+        eqs = [ast.Compare(ast.Eq(), I(col), l) for l in lits]
+        nul = ast.Compare(ast.Eq(), I(col), ast.Null())
+        for pos in range(4):
+            terms = eqs[:pos] + [nul] + eqs[pos:]
+            filters.append(orchain(terms)); filters.append(orchain(terms[:3])); filters.append(ast.UnaryOp(ast.Not(), orchain(terms)))
+            filters.append(ast.BoolOp(ast.Or(), terms[0], ast.BoolOp(ast.Or(), terms[1], ast.BoolOp(ast.Or(), terms[2], terms[3]))))      # right-nested
+        filters.append(orchain(eqs)); filters.append(orchain([ast.Compare(ast.NotEq(), I(col), l) for l in lits]))
     uniq = sc.dedup(filters)
     nodes = [n for w, n in uniq]
     texts = texts_of(nodes)
@@ -196,6 +218,12 @@ def run(ctx, pid="C02"):
         styles = [("select(Model)", lambda t: oc.sa_shorthand_ids(t, "orm")), ("session.query(Model)", lambda t: oc.sa_shorthand_ids(t, "legacy")),
                   ("select(table)", lambda t: oc.sa_shorthand_ids(t, "core"))]
         drop = ("indexof", "concat")       # strpos / concat do not exist on SQLite: outside the supported fragment there
+    # FIRST thing translated in this process: FLOAT literals equal to the integers the filters use (and strings equal to their spellings, Booleans equal
+    # to 0 / 1): a translation must not depend on which spelling of a value was translated earlier in the process
+    for t in ["f1 lt 2.0 or f1 gt 7.0", "f1 ne 1.0 and f1 ne 0.0", "f1 eq 3.0 or f1 eq -1.0 or f1 eq -7.0 or f1 eq -2.0", "f1 lt 4.0 and f1 gt -4.0 and f1 ne -3.0", "s1 eq '2' or s1 eq '7' or s1 eq 'true'",
+              "b1 eq true or b1 eq false"]:
+        for sname, fn in styles:
+            fn(t)
     cases = build_filters(ctx, drop)
     rng = ctx.rng
     rows_sets = [sm.product_rows()[:: (1 if ctx.thorough else 3)]] + [sm.rows_for(rng, 40) for _ in range(2 if ctx.thorough else 1)]
